@@ -920,6 +920,8 @@ struct Gen<'a> {
     en_ws: bool,
     /// the codes of all constructible DialError variants
     codes: Vec<u64>,
+    /// listen addresses registered so far
+    listens: Vec<Abs>,
 }
 
 impl<'a> Gen<'a> {
@@ -1085,15 +1087,76 @@ impl<'a> Gen<'a> {
 
 /// Number of systematic cases at the start of every run: (path of the failure) x (score of the
 /// address before the failure), each over every constructible DialError variant.
-const SWEEP_PATHS: u64 = 4;
+const SWEEP_PATHS: u64 = 6;
 const SWEEP_PRIORS: u64 = 7;
-const NSWEEP: u64 = SWEEP_PATHS * SWEEP_PRIORS;
+const NSWEEP: u64 = SWEEP_PATHS * SWEEP_PRIORS + 1;
+
+/// Saturation case: raw inserts at and next to both ends of i32 on new global (bonus added,
+/// saturating) and private addresses, then every score written over every stored one, failures
+/// and successes on the extremes, rediscovery.
+fn saturation_case(codes: &[u64]) -> Vec<u64> {
+    let peer = 2u64;
+    let scores: [i64; 9] =
+        [i32::MIN as i64, i32::MIN as i64 + 1, -100, -1, 0, 1, 100, i32::MAX as i64 - 1, i32::MAX as i64];
+    let mut ops: Vec<Vec<u64>> = Vec::new();
+    let mut addrs: Vec<Abs> = Vec::new();
+    for (i, sc) in scores.iter().enumerate() {
+        for global in [true, false] {
+            let id = 3000 + 2 * i as u64 + global as u64;
+            let host = if global { (0, 3 * 65536 + id) } else { (1, 2 * 65536 + id) };
+            let a = vec![host, (5, 4000 + i as u64), (10, peer)];
+            let mut op = vec![8, peer];
+            enc_abs(&a, &mut op);
+            op.extend([(sc + SCORE_BIAS) as u64, 0]);
+            ops.push(op);
+            addrs.push(a);
+        }
+    }
+    for (i, a) in addrs.iter().enumerate() {
+        let sc = scores[(i * 5 + 3) % scores.len()];
+        let mut op = vec![8, peer];
+        enc_abs(a, &mut op);
+        op.extend([(sc + SCORE_BIAS) as u64, 0]);
+        ops.push(op);
+        match i % 3 {
+            0 => {
+                let mut op = vec![1];
+                enc_abs(a, &mut op);
+                op.extend([codes[i % codes.len()], 0]);
+                ops.push(op);
+            }
+            1 => {
+                let mut op = vec![2, peer];
+                enc_abs(a, &mut op);
+                op.extend([0, 0]);
+                ops.push(op);
+            }
+            _ => {}
+        }
+    }
+    let mut op = vec![0, peer, addrs.len() as u64];
+    for a in &addrs {
+        enc_abs(a, &mut op);
+    }
+    op.extend([0, 0]);
+    ops.push(op);
+    ops.push(vec![3, peer, 64, 0]);
+    let mut c = vec![1, 0, 1, 1, 0, 0, 0, ops.len() as u64];
+    for op in ops {
+        c.extend(op);
+    }
+    c
+}
 
 /// Sweep case: for every error kind one stored address of peer 1 with the prior score, a failure
 /// of that kind through `path` (0 update_address_on_dial_failure, 1 dial_address + DialFailure
-/// event, 2 dial(peer) + OpenFailure events, 3 dial(peer) + ConnectionOpened with errors), then
-/// a rediscovery of everything and the dial order.
+/// event, 2 dial(peer) + OpenFailure events, 3 dial(peer) + ConnectionOpened with errors; and the
+/// success paths 4 update_address_on_connection_established, 5 dial_address + ConnectionEstablished),
+/// then a rediscovery of everything and the dial order.
 fn sweep_case(codes: &[u64], index: u64) -> Vec<u64> {
+    if index == NSWEEP - 1 {
+        return saturation_case(codes);
+    }
     let (path, prior) = (index % SWEEP_PATHS, index / SWEEP_PATHS);
     let peer = 1u64;
     let mut ops: Vec<Vec<u64>> = Vec::new();
@@ -1146,11 +1209,23 @@ fn sweep_case(codes: &[u64], index: u64) -> Vec<u64> {
                 op.extend([*code + 1, 0]);
                 ops.push(op);
             }
+            4 => {
+                let mut op = vec![2, peer];
+                enc_abs(&a, &mut op);
+                op.extend([0, 0]);
+                ops.push(op);
+            }
+            5 => {
+                let mut op = vec![10];
+                enc_abs(&a, &mut op);
+                op.extend([0, 0]);
+                ops.push(op);
+            }
             _ => {}
         }
         addrs.push(a);
     }
-    if path >= 2 {
+    if path == 2 || path == 3 {
         // every stored address is handed to open(); attempt i fails with kind (i + shift) mod n
         for shift in [0usize, 7, 13] {
             let mut op = vec![9, peer, if path == 2 { 0 } else { 999 }, codes.len() as u64];
@@ -1192,6 +1267,7 @@ fn gen_case(rng: &mut Rng, codes: &[u64], index: u64, thorough: bool) -> Vec<u64
         en_tcp,
         en_ws,
         codes: codes.to_vec(),
+        listens: Vec::new(),
     };
     let local = g.rng.below(4);
     // max_outgoing_connections: none, or 0..=8 (encoded +1)
@@ -1220,6 +1296,7 @@ fn gen_case(rng: &mut Rng, codes: &[u64], index: u64, thorough: bool) -> Vec<u64
         let l = g.listen_addr();
         c.push(5);
         enc_abs(&l, &mut c);
+        g.listens.push(l);
     }
     for _ in 0..nops {
         let peer = if fill && g.rng.chance(90) { focus } else { (focus + g.rng.below(npeers)) % NPEERS };
@@ -1274,6 +1351,7 @@ fn gen_case(rng: &mut Rng, codes: &[u64], index: u64, thorough: bool) -> Vec<u64
             let l = g.listen_addr();
             c.push(5);
             enc_abs(&l, &mut c);
+            g.listens.push(l);
         } else if r < add_single + 46 {
             // PublicAddresses: add (with / without / foreign peer id, empty) and remove
             let mut a = if g.rng.chance(8) { Vec::new() } else { g.listen_addr() };
@@ -1294,7 +1372,13 @@ fn gen_case(rng: &mut Rng, codes: &[u64], index: u64, thorough: bool) -> Vec<u64
                 5 | 6 if !clean => g.addr(peer),
                 5 | 6 => g.fresh(peer),
                 7 => {
-                    let mut l = g.listen_addr();
+                    // a registered listen address (literally, or under another peer id), or a new one
+                    let mut l = if !g.listens.is_empty() && g.rng.chance(75) {
+                        let i = g.rng.below(g.listens.len() as u64) as usize;
+                        g.listens[i].clone()
+                    } else {
+                        g.listen_addr()
+                    };
                     l.push((10, if g.rng.chance(50) { local } else { peer }));
                     l
                 }
